@@ -648,8 +648,14 @@ func SkipRows(fn *ssa.Function) []string {
 var skipScope = []string{"haproxy", "haproxy/types", "haproxy/template", "haproxy/socket", "converters", "converters/ingress", "converters/gateway", "converters/utils", "converters/configmap", "converters/ingress/annotations", "converters/tracker", "acme", "controller/services", "controller/reconciler", "controller/legacy", "utils/workqueue", "utils", "common/net/ssl", "controller/config", "controller/utils", "converters/ingress/utils", "converters/types", "converters/ingress/types", "common/ingress/controller", "types"}
 
 // SkipsAll renders the skip table of the current tree (used by `hapverif genskips`).
+var skipsCache = map[*core.Env]map[string][]string{}
+
 func SkipsAll(env *core.Env) map[string][]string {
+	if m, ok := skipsCache[env]; ok {
+		return m
+	}
 	out := map[string][]string{}
+	defer func() { skipsCache[env] = out }()
 	for _, fn := range env.SrcFuncs() {
 		in := false
 		for _, p := range skipScope {
